@@ -50,7 +50,7 @@ PROPS = {
                       "(assumed, bounded), __ctx_to_str key model.",
     },
     "C02": {
-        "modules": ["contracts.c02_dataset"],
+        "modules": ["contracts.c02_dataset", "contracts.c01_memory"],
         "claim_level": "other",
         "design_ref": "6.2",
         "technique": TECH,
